@@ -555,7 +555,101 @@ func fieldName(t types.Type, i int) string {
 	return fmt.Sprintf("f%d", i)
 }
 
+// copySource: if the local is an unmodified copy of a struct stored elsewhere ("mt := list[i]",
+// range value variables), the address it was copied from.  Reading a field of the copy is reading
+// the field of the original, however the source spells it.
+func copySource(a *ssa.Alloc) ssa.Value {
+	t := a.Type().(*types.Pointer).Elem()
+	if _, ok := t.Underlying().(*types.Struct); !ok {
+		return nil
+	}
+	refs := a.Referrers()
+	if refs == nil {
+		return nil
+	}
+	var src ssa.Value
+	for _, r := range *refs {
+		switch x := r.(type) {
+		case *ssa.Store:
+			if x.Addr != ssa.Value(a) || src != nil {
+				return nil
+			}
+			// the stored value: *addr, or a field of such a loaded struct
+			v := x.Val
+			for {
+				if f, ok := v.(*ssa.Field); ok {
+					v = f.X
+					continue
+				}
+				break
+			}
+			ld, ok := v.(*ssa.UnOp)
+			if !ok || ld.Op != token.MUL {
+				return nil
+			}
+			switch ld.X.(type) {
+			case *ssa.IndexAddr, *ssa.FieldAddr, *ssa.Alloc:
+				src = x.Val
+			default:
+				return nil
+			}
+		case *ssa.FieldAddr:
+			// fields (and fields of embedded structs) may only be read
+			if !onlyRead(x, 0) {
+				return nil
+			}
+		case *ssa.UnOp:
+			if x.Op != token.MUL {
+				return nil
+			}
+		case *ssa.DebugRef:
+		default:
+			return nil
+		}
+	}
+	return src
+}
+
+func onlyRead(addr ssa.Value, d int) bool {
+	fr := addr.Referrers()
+	if fr == nil || d > 4 {
+		return d <= 4
+	}
+	for _, u := range *fr {
+		switch x := u.(type) {
+		case *ssa.UnOp:
+			if x.Op != token.MUL {
+				return false
+			}
+		case *ssa.FieldAddr:
+			if !onlyRead(x, d+1) {
+				return false
+			}
+		case *ssa.DebugRef:
+		default:
+			return false
+		}
+	}
+	return true
+}
+
 func (c *rctx) alloc(a *ssa.Alloc) string {
+	if src := copySource(a); src != nil && !c.seen[a] {
+		c.seen[a] = true
+		defer delete(c.seen, a)
+		// render the location the value was read from
+		var loc func(v ssa.Value) string
+		loc = func(v ssa.Value) string {
+			switch y := v.(type) {
+			case *ssa.Field:
+				return loc(y.X) + "." + fieldName(y.X.Type(), y.Field)
+			case *ssa.UnOp:
+				return c.x(y.X)
+			}
+			return c.x(v)
+		}
+		return loc(src)
+	}
 	t := a.Type().(*types.Pointer).Elem()
 	pre := c.up(a.Parent())
 	name := a.Comment
